@@ -131,4 +131,17 @@ CHECKS = {
         rule="state = canonical target keyspace (per database: checkpoint fields, data flag); transition = one write applied to the model state; every distinct state is evaluated once on the real code; non-trivial = the state holds at least one checkpoint field or foreign value (outcome other than 'none')",
         parts=[dict(pkg="./redis-shake/checkpoint", harness=["checkpoint"], test="^TestVerif_C14$", shards=16, budget=dict(quick=60, thorough=900))],
     ),
+    "C20": dict(
+        level="model_checking",
+        engine="seqx+synctest",
+        technique="exhaustive depth-first enumeration of per-probe environment answers (full product for 1-2 retries, deviation-bounded for the production retry count) driving the real discovery routine inside a fake-clock bubble",
+        text="The real recursiveGetSlotState runs with its connection factory replaced by one whose answer to every probe (connect error, command error, "
+             "INFO without role line, slave, slave with a misleading earlier line, master, master with the role line late) is the explorer's choice; the "
+             "back-off sleeps run on testing/synctest's fake clock. Full product over all rounds for maxRetries 1 and 2, all-fail default with <=2/3 deviating "
+             "answers for the production value 6. Oracle: success iff the final round contains a node answering master, that node is the chosen source, "
+             "source+replicas is exactly the known node list, failure only after maxRetries+1 rounds and exactly the expected back-off, receiver state unchanged.",
+        note="trusts testing/synctest's fake clock (A1); the fake connection implements redigo.Conn directly (no network layer involved in this property)",
+        rule="case = one complete sequence of probe answers; states = distinct answer sequences; transitions = probes; non-trivial = every completed execution (each is judged against the expected outcome)",
+        parts=[dict(pkg="./redis-shake/dbSync/slotsupervisor", harness=["slotsupervisor"], test="^TestVerif_C20$", shards=16, budget=dict(quick=60, thorough=900))],
+    ),
 }
